@@ -77,6 +77,7 @@ struct ChildSt {
     moved: Cell<bool>,
     woken_since_poll: Cell<bool>,
     err: Cell<bool>,
+    wake_on_ready: Cell<bool>,
 }
 type St = Rc<ChildSt>;
 
@@ -124,6 +125,10 @@ impl Future for Fut {
             st.polled_after_done.set(true);
         }
         if st.ready.get() {
+            if st.wake_on_ready.get() {
+                // a child may fire its own waker during the very poll in which it completes
+                cx.waker().wake_by_ref();
+            }
             st.done.set(true);
             Poll::Ready(Out { id: self.id, st: st.clone() })
         } else {
@@ -397,12 +402,15 @@ fn run_collections(prop: &'static str, seed: u64, iters: usize) {
                     if rng.below(6) == 0 {
                         st.self_wake.set(true);
                     }
+                    if rng.below(5) == 0 {
+                        st.wake_on_ready.set(true);
+                    }
                     children.push(st.clone());
                     let before_len = coll.len();
                     let running: usize = model.iter().filter(|i| !children[**i].done.get()).count();
                     let f = Fut::new(id, st.clone());
                     let r = if front { coll.push_front(f) } else { coll.push_back(f) };
-                    hist.push(format!("push_{}({id}{}{})", if front { "front" } else { "back" }, if st.ready.get() { ",ready" } else { "" }, if st.self_wake.get() { ",selfwake" } else { "" }));
+                    hist.push(format!("push_{}({id}{}{}{})", if front { "front" } else { "back" }, if st.ready.get() { ",ready" } else { "" }, if st.self_wake.get() { ",selfwake" } else { "" }, if st.wake_on_ready.get() { ",wakes-itself-when-completing" } else { "" }));
                     match r {
                         Ok(()) => {
                             pushes += 1;
@@ -997,9 +1005,10 @@ fn run_merge(prop: &'static str, seed: u64, iters: usize) {
             report(&Fail { prop, scenario: "MergeUnbounded: source 0 always ready, 1..31 pending (group 0), source 32 ready (group 1)".into(), history: vec!["109 polls".into()], what: "source 32 was never polled: a permanently ready source in an earlier group starves it".into() });
         }
     }
-    for _ in 0..iters {
+    for it in 0..iters {
         let unbounded = rng.below(2) == 0;
-        let nsrc = 1 + rng.below(4);
+        // every 50th history: many sources that end (or yield) in the same poll, to cross per-poll budgets
+        let nsrc = if it % 50 == 49 { 62 + rng.below(40) } else { 1 + rng.below(4) };
         let scenario = format!("{}({nsrc} sources)", if unbounded { "MergeUnbounded" } else { "MergeBounded" });
         let mut hist: Vec<String> = vec![];
         let fail = |props: &[&str], hist: &Vec<String>, what: String| { if props.contains(&prop) { report(&Fail { prop, scenario: scenario.clone(), history: hist.clone(), what }) } };
@@ -1007,7 +1016,12 @@ fn run_merge(prop: &'static str, seed: u64, iters: usize) {
         let mut srcs = vec![];
         for i in 0..nsrc {
             let (s, st) = mk_src(i, &mut rng);
-            hist.push(format!("source {i}: {:?}", st.script.borrow()));
+            if nsrc >= 62 {
+                st.script.borrow_mut().clear();
+                if rng.below(4) == 0 { st.script.borrow_mut().push_back(Up::Item); }
+                st.script.borrow_mut().push_back(Up::End);
+            }
+            if nsrc < 62 { hist.push(format!("source {i}: {:?}", st.script.borrow())); } else if i == 0 { hist.push(format!("{nsrc} sources, each ending at once (one in four after a single item)")); }
             sts.push(st);
             srcs.push(s);
         }
@@ -1021,7 +1035,7 @@ fn run_merge(prop: &'static str, seed: u64, iters: usize) {
         let mut cx = Context::from_waker(&waker);
         let mut next_seq = vec![0usize; nsrc];
         let mut done = false;
-        for _ in 0..60 {
+        for _ in 0..(60 + 3 * nsrc) {
             if rng.below(3) == 0 {
                 let i = rng.below(nsrc);
                 if let Some(w) = sts[i].waker.borrow().as_ref() {
